@@ -10,6 +10,7 @@
 #include "interior_node.h"
 #include "log.h"
 #include "tree_instance.h"
+#include "verif_hooks.h"
 
 #include "glog/logging.h"
 
@@ -189,6 +190,7 @@ interior_node::delete_of(Token token, tree_instance* ti, base_node* const child)
             if (n_key == 1) {
                 // remove this node and promote its last child node one level
                 set_version_deleted(true);
+                YK_VP(YK_RMW, YK_C_TREE, &n_keys_);
                 n_keys_decrement();
                 base_node* sibling = get_child_at(1 - i); // i == 0 or 1
                 base_node* pn = lock_parent(ti);
@@ -229,6 +231,7 @@ interior_node::delete_of(Token token, tree_instance* ti, base_node* const child)
                     set_child_at(n_key, nullptr);
                 }
                 set_key(n_key - 1, 0, 0);
+                YK_VP(YK_RMW, YK_C_TREE, &n_keys_);
                 n_keys_decrement();
                 version_unlock();
             }
